@@ -1351,6 +1351,12 @@ func (fr *Frame) typeAssert(x *ssa.TypeAssert, st *State, reach string) {
 		}
 	}
 	val := fc.mkVal(valTyp, valT)
+	if _, isPtr := at.Underlying().(*types.Pointer); isPtr && fc.Mode == "safety" && val.S == "Int" {
+		// sweep assumption: an interface value does not hold a typed nil pointer (decoders allocate the wrapper
+		// of a oneof / Any before they set the interface field)
+		fc.B.Assert(implies(and(reach, okT), not(eq(valT, "0"))))
+		fc.trusted["sweep assumption: interface values do not hold typed nil pointers"] = true
+	}
 	if x.CommaOk {
 		okV := Val{S: "Bool", T: okT, Typ: types.Typ[types.Bool]}
 		zero := fc.zero(at)
